@@ -109,6 +109,30 @@ def _mutant_one(args):
         rec['status'] = 'killed (checker rejects: %s: %s)' % (type(e).__name__, str(e)[:200])
     return rec
 
+def _module_mutant_one(args):
+    prop, modname, m = args
+    import importlib
+    mod = importlib.import_module(modname)
+    relpath, old, new, expect = m[:4]
+    rec = dict(function=relpath, mutant='%s -> %s' % (old, new), expect=expect)
+    try:
+        with extract.patched_source(relpath, old, new):
+            obls = mod.lemmas()
+            cand = [o for o in obls if expect in o.name]
+            for o in cand:
+                if o.result is None: solve.discharge(o)
+            bad = [o.name for o in cand if o.result != 'proved']
+            rec['failed'] = bad
+            rec['status'] = 'killed' if bad else ('SURVIVED' if cand else 'SURVIVED (no obligation named %s)' % expect)
+            if not bad:
+                other = [o.name for o in obls if o.result is not None and o.result != 'proved']
+                if other: rec['status'] = 'killed-elsewhere'; rec['failed'] = other[:3]
+    except KeyError as e:
+        rec['status'] = 'skipped: ' + str(e)
+    except Exception as e:
+        rec['status'] = 'killed (checker rejects: %s: %s)' % (type(e).__name__, str(e)[:200])
+    return rec
+
 def _pool():
     import multiprocessing as mp
     from concurrent.futures import ProcessPoolExecutor
@@ -128,9 +152,10 @@ def verify_functions(prop, mod, res, tier):
 def run_mutants(prop, mod, res):
     """must-fail self-test: in-memory mutants of the real functions; each must make its named obligation fail"""
     ms = list(getattr(mod, 'MUTANTS', []))
-    if not ms: return
+    mms = list(getattr(mod, 'MODULE_MUTANTS', []))
+    if not ms and not mms: return
     with _pool() as ex:
-        recs = list(ex.map(_mutant_one, [(prop, mod.__name__, m) for m in ms]))
+        recs = list(ex.map(_mutant_one, [(prop, mod.__name__, m) for m in ms])) + list(ex.map(_module_mutant_one, [(prop, mod.__name__, m) for m in mms]))
     for rec in recs:
         res.mutants.append(rec)
         if rec['status'] == 'SURVIVED':
